@@ -29,12 +29,13 @@ func init() {
 var bigEndianArch = map[string]bool{"mips": true, "mips64": true, "ppc64": true, "s390x": true, "ppc": true, "sparc": true, "sparc64": true, "armbe": true, "arm64be": true, "m68k": true}
 
 func runC04(c *Ctx, r *Report) {
+	defer round8(c, r, "C04")
 	l := c.L
 	defer c04r13(c, r)
 	defer c04r14(c, r)
 	defer c04r15(c, r)
 	defer c02r13(c, r) // the rank key is computed without 32-bit overflow
-	defer c01r3(c, r) // a cached chunk result is only served to the pattern it was computed for
+	defer c01r3(c, r)  // a cached chunk result is only served to the pattern it was computed for
 	// ---------------- R1 ----------------
 	r.rule("C04-R1", "H (constant inequalities) + B", "P1",
 		"len(Result.points) >= the longest criteria list parseTiebreak accepts and every []criterion literal; buildResult stores criterion idx at points[len-1-idx]; sortCriteria has a single writer (Run)",
